@@ -326,10 +326,11 @@ const (
 	evKillA
 	evRestartA
 	evCloseStream
+	evRefusedStreamA
 	nTrEvents
 )
 
-var trEvNames = []string{"call(a)", "call(b)", "ping(a)", "go(a)", "long(a)", "stream(a)", "release", "tick", ">keepalive", ">idle", "closeidle", "kill(a)", "restart(a)", "closestream"}
+var trEvNames = []string{"call(a)", "call(b)", "ping(a)", "go(a)", "long(a)", "stream(a)", "release", "tick", ">keepalive", ">idle", "closeidle", "kill(a)", "restart(a)", "closestream", "refused-stream(a)"}
 
 func (t *trSys) do(ev int) {
 	switch ev {
@@ -365,6 +366,15 @@ func (t *trSys) do(ev int) {
 		t.kill("a")
 	case evRestartA:
 		t.restart("a")
+	case evRefusedStreamA:
+		// a stream the server refuses (unknown method): nothing stays open on the connection
+		if t.up["a"] {
+			_, err := t.tr.NewStream("a", "Nope.Nope")
+			t.log = append(t.log, "refused-stream(a)="+errStr(err))
+			if err == nil {
+				t.x.Fail(t.prop+"/refused-stream-opened", "NewStream for an unknown method returned no error")
+			}
+		}
 	case evCloseStream:
 		if n := len(t.streams); n > 0 {
 			err := t.streams[n-1].st.Close()
@@ -510,6 +520,8 @@ func init() {
 	c15s := []int{evCallA, evLongA, evStreamA, evCloseStream, evTick, evPastKeepAlive, evCloseIdle}
 	register(&Scenario{Prop: "C15", Name: "c15/after-stream-L3", Quick: []Bound{{0, 0}}, Thorough: []Bound{{1, 0}}, Body: trSeqBody("C15", 3, c15s, trLimits[:2], evStreamA, evCloseStream), MaxSteps: 200000})
 	// two first callers racing for an address: nothing may be left open after Close (C15) / limits hold (C13)
+	c15r := []int{evCallA, evRefusedStreamA, evTick, evPastKeepAlive, evPastIdle, evCloseIdle}
+	register(&Scenario{Prop: "C15", Name: "c15/after-refused-stream-L3", Quick: []Bound{{0, 0}}, Thorough: []Bound{{1, 0}}, Body: trSeqBody("C15", 3, c15r, trLimits[:2], evRefusedStreamA), MaxSteps: 200000})
 	register(&Scenario{Prop: "C15", Name: "c15/concurrent-first-callers", Quick: []Bound{{1, 0}}, Thorough: []Bound{{2, 0}}, Body: trConcBody("C15", trLimits[:3]), MaxSteps: 200000, BudgetQ: 25})
 	register(&Scenario{Prop: "C15", Name: "c15/seq-L4", Quick: []Bound{{0, 0}}, Thorough: []Bound{{1, 0}}, Body: trSeqBody("C15", 4, c15ab, trLimits[:3]), MaxSteps: 200000})
 }
